@@ -44,7 +44,10 @@ class Rewrite:
 class Insert:
     """insert ghost text before/after the occ-th occurrence of a literal anchor"""
 
-    def __init__(self, anchor, text, where="before", occ=1, rule="R12", why="ghost/proof text"):
+    def __init__(self, anchor, text, where="before", occ=1, rule="R12", why="ghost/proof text", finding=None):
+        # finding: this insert is the guard (an `assume`) of a known finding; it is omitted in the
+        # probe run of that finding (probe label "guard:<finding>")
+        self.finding = finding
         self.anchor = anchor
         self.text = text
         self.where = where
